@@ -137,6 +137,17 @@ def build(g, bytes_backing=False):
             pol.lru = perm
         else:
             pol.tree_array = [sym_bool("plru_%d_%d" % (s, j)) for j in range(g.assoc - 1)]
+    if native():
+        # native runs (replay, bounded adjudication): the backing store is made to agree with the blocks that must be
+        # clean copies -- a no-op for a counter-model (it satisfies the assumption below), and what makes the random
+        # search of the adjudicator reach states with valid blocks at all
+        for s in range(g.nsets):
+            for w in range(g.assoc):
+                b = ms.cache.sets[s].blocks[w]
+                if b.valid_bit and (g.kind == "wt" or not b.dirty_bit):
+                    for i in range(g.nwords):
+                        for k in range(4):
+                            ms.memory.memory_file[b.decoded_address.block_alinged_address + 4 * i + k] = UInt8((int(b.values[i]) >> (8 * k)) & 255)
     # clean valid blocks (and every valid block of a write-through cache) equal their backing words
     for s in range(g.nsets):
         for w in range(g.assoc):
